@@ -312,6 +312,8 @@ class Eval:
                 why = dec_v["v"]
                 if any(not operator_in_domain(list(n)) for n in names):
                     why = "operator-outside-alphabet"
+                elif any(n.startswith(k) and len(n) > len(k) for n in names for k in (b"null", b"true", b"false", b"BI")):
+                    why = "operator-begins-like-keyword:" + why       # the decoder side of C14:operator.keyword-prefix / BI-prefix
                 elif why == "lit-raw-eol-kept":
                     pass
                 elif m.get("sep") == "all":
@@ -545,10 +547,32 @@ def negative_controls():
     # 8: inline image written back as a stream object
     sb = B("<</BPC 8/CS/RGB/H 1/Length 3/W 1>>stream\n EI\nendstream BI\nQ")
     controls.append(("inline-written-as-stream", [enc(img_ops, sb), dec(img_ops)], lambda vs: not vs[0]["v"].startswith("ok")))
-    rejected = 0
+    # domain edges: refusing is accepted exactly where Content!Domain says so, and writing what decodes differently never is
+    nul = [{"op": B("q"), "args": []}, {"op": B("null"), "args": []}]
+    controls.append(("refusal-of-unwritable-positive", [{"ev": "Encode", "cls": "neg", "case": 0, "ops": nul, "res": "err:Syntax", "bytes": []}],
+                     lambda vs: vs[0]["v"] == "ok-refused"))
+    controls.append(("refusal-in-core-domain", [{"ev": "Encode", "cls": "neg", "case": 0, "ops": ops, "res": "err:Syntax", "bytes": []}],
+                     lambda vs: vs[0]["v"] == "encode-failed"))
+    controls.append(("unwritable-written", [enc(nul, B("q\nnull")), dec(nul[:1])], lambda vs: vs[1]["rt"] == "op-count" and "unwritable-operator" in vs[0]["dom"]["why"]))
+    kwp = [{"op": B("nullx"), "args": [i12]}]
+    controls.append(("keyword-prefix-split", [enc(kwp, B("12 nullx")), dec([{"op": B("x"), "args": [i12, {"k": "null"}]}])],
+                     lambda vs: vs[0]["v"] == "ok" and vs[0]["dom"]["cls"] == "core" and vs[1]["rt"] == "operator"))
+    inf = [{"op": B("w"), "args": [{"k": "real", "neg": False, "nonfinite": True, "bits": "2139095040"}]}]
+    controls.append(("nonfinite-written", [enc(inf, B("inf w")), dec([{"op": B("inf"), "args": []}, {"op": B("w"), "args": []}])],
+                     lambda vs: "nonfinite-real" in vs[0]["dom"]["why"] and not vs[0]["v"].startswith("ok") and vs[1]["rt"] == "op-count"))
+    # one TLC run for all controls: a Reset event separates them
+    allrecs, spans = [], []
     for name, recs, pred in controls:
-        vs, _, _ = vlib.validate_trace("Trace_Content.tla", "Trace_Content.cfg", recs, "c14-neg-" + name)
-        if len(vs) != len(recs) or not pred(vs):
+        allrecs.append({"ev": "Reset", "sched": name})
+        spans.append((len(allrecs), len(allrecs) + len(recs)))
+        allrecs += recs
+    vs_all, _, _ = vlib.validate_trace("Trace_Content.tla", "Trace_Content.cfg", allrecs, "c14-neg")
+    if len(vs_all) != len(allrecs):
+        raise vlib.ToolError("negative controls: %d of %d events judged" % (len(vs_all), len(allrecs)))
+    rejected = 0
+    for (name, recs, pred), (a, b) in zip(controls, spans):
+        vs = vs_all[a:b]
+        if not pred(vs):
             raise vlib.ToolError("negative control '%s' failed: %s" % (name, [(v["v"], v["rt"]) for v in vs]))
         if not name.endswith("positive"):
             rejected += 1
